@@ -7,6 +7,8 @@ import (
 	"log"
 	"os"
 
+	"time"
+
 	"github.com/go-logr/stdr"
 	"verifharness/internal/ev"
 )
@@ -35,3 +37,5 @@ func Silence() {
 	stdr.SetVerbosity(0)
 	log.SetOutput(io.Discard)
 }
+
+func sleepShort() { time.Sleep(200 * time.Microsecond) }
